@@ -295,6 +295,18 @@ let () =
                 if cfgc.maxmem = None && cfgc.ttl = None && gone <> [] then
                   fail "limit" (Printf.sprintf "f%d x=%d: an entry disappeared from a cache without limits" f x))
            end;
+           if has "mem" then begin
+             (match cfgc.maxmem with
+              | Some m ->
+                let total = List.fold_left (fun acc (k, (v, _, _)) -> acc + (try Hashtbl.find entry_sizes (f, k, v) with Not_found -> 0)) 0 post_store in
+                if total > int_of_n m then
+                  fail "mem" (Printf.sprintf "f%d: the cached values use %d bytes, max_memory is %d" f total (int_of_n m));
+                if exec > 0 && size > int_of_n m && List.mem_assoc x post_store then
+                  fail "mem" (Printf.sprintf "f%d x=%d: a value of %d bytes alone exceeds max_memory %d but is cached" f x size (int_of_n m));
+                if exec > 0 && size > int_of_n m && gone <> [] then
+                  fail "mem" (Printf.sprintf "f%d x=%d: an oversize value displaced %d other entries" f x (List.length gone))
+              | None -> ())
+           end;
            if has "ttl" then begin
              (match cfgc.ttl, List.assoc_opt x prev_store with
               | Some t, Some (_, _, born) ->
